@@ -37,7 +37,13 @@ PROP = {
              "-> complete and verifies the Ed25519 signature over both nonces; Request, LiteServerGetTime and "
              "WaitMasterchainSeqno under a 1 h caller deadline, unanswered calls, FIN/RST drops, recovery: results, number of "
              "transport connections and of verified authentications predicted by the model; a crash of the process is an "
-             "outcome); go/ast check of the statement order in Request / "
+             "outcome); black holes during a reconnect (wall-clock c12.seq histories on 1- and 2-connection clients: the server resets "
+             "connection 0 and then accepts TCP but never answers the handshake / sends ten bytes of the answer / answers it and is "
+             "silent for ever, the swallowed connection stays open; meanwhile every call returns by its deadline - send error, "
+             "timeout, or an answer over the healthy connection - and once the server behaves again for new connections the client "
+             "is re-established within 14 s of the failed send, later calls succeed; c12.auth: the same holes with the calls' "
+             "results predicted by the model, goroutine count around each call, NewConnection under a 400 ms context against a "
+             "hole returns an error by its deadline); go/ast check of the statement order in Request / "
              "registerCallback / processQueryAnswer. A class is (kind, connections, callers bucket, waves/drop or race shape "
              "or history shape, outcome)."),
     'explanation': ("coq/Properties/C12.v: for every trace of the labelled transition system of client.go + the status machine of "
@@ -49,7 +55,7 @@ PROP = {
                     "is never dropped by it); after any number of failed attempts and any waiting time the reconnect loop can "
                     "still succeed (attempts are independent; a single deadline for the whole loop is refuted); the pinger of a connection "
                     "is alive and enabled in every reachable state, across failed pings and reconnects, and time cannot pass its "
-                    "deadline without a ping (a pinger that returns after a failed ping is refuted); the deadline of a call is min(client timeout, caller deadline) (the "
+                    "deadline without a ping (a pinger that returns after a failed ping is refuted); a connection attempt whose handshake has a deadline ends (without one it never does: the repaired defect); the deadline of a call is min(client timeout, caller deadline) (the "
                     "variant that lets a later caller deadline replace the client timeout is refuted); the authentication channel, "
                     "never closed, serves any number of re-authentications (closing it after the first one is refuted: panic); a new call over an established "
                     "connection completes. The extracted model predicts or accepts every generated history of the real client."),
